@@ -157,6 +157,7 @@ func zvC03Late(step string) bool {
 func TestVerifC03(t *testing.T) {
 	r := vh.Start(t, "C03")
 	defer r.Finish()
+	zvSelQuiet()
 	r.Rule("every ordered pair (a,b) of D = LOCAL_PREF{100,200} x AS_PATH len{1,2} x ORIGIN{0,1} x MED{0,10} x eBGP{f,t} x BGP-ID{1,2} x ORIGINATOR_ID{absent,1,3} x CLUSTER_LIST{absent,empty,1,2 entries} " +
 		"x peer{.1,.2} x next hop{.1,.2} (3072 paths): a.Select(b) against the RFC reference comparator, and LocRIB.AddPath(a), AddPath(b) -> BestPath; " +
 		"every 3-subset of the tie-prone sub-domain x 6 insertion orders on the LocRIB; evaluations = Select pairs + LocRIB histories; non-trivial = those on which the reference separates the candidates")
@@ -186,6 +187,7 @@ func TestVerifC03(t *testing.T) {
 	var evals, nontriv, notItemised int64
 	t0, c0 := time.Now(), zvSelCPU()
 	order2 := []int{0, 1}
+	lastStep, lastKey := "", ""
 	for i := 0; i < n; i++ {
 		if !r.Mine(i) {
 			continue
@@ -204,7 +206,10 @@ func TestVerifC03(t *testing.T) {
 				continue
 			}
 			nontriv += 2
-			cnt["step_"+step]++
+			if step != lastStep {
+				lastStep, lastKey = step, "step_"+step
+			}
+			cnt[lastKey]++
 			if step == "identifier" && (a.ID < b.ID) != (a.effID() < b.effID()) {
 				cnt["identifier_decided_by_originator_id"]++
 			}
